@@ -816,20 +816,21 @@ extern "C" int nanosleep(const struct timespec *req, struct timespec *rem)
   Case *cs = g_case.load();
   if (cs && t_callerReq >= 0 && req)
   {
+    // every sleep of a caller thread inside an HttpClient call is the retry back-off: logged always (a logical event:
+    // "a back-off of req_ms was requested before the next attempt"), shortened by sdiv; sdiv >= 1000 makes it virtual
+    // (large retry budgets ask for minutes to days of back-off). A non-positive duration never gets here: sleep_for
+    // returns without calling nanosleep, which the checker sees as a retry that was not preceded by a back-off.
     double ms = double(req->tv_sec) * 1000.0 + double(req->tv_nsec) / 1e6;
-    if (ms >= 50.0)
-    {
-      int div = cs->spec.sleepDiv > 0 ? cs->spec.sleepDiv : 1;
-      double act = ms / div;
-      uint64_t a = vf::nowNs();
-      vf::sleepMs(act);
-      double real = double(vf::nowNs() - a) / 1e6;
-      char b[200];
-      snprintf(b, sizeof b, "\"e\":\"c_sleep\",\"r\":%d,\"th\":%d,\"req_ms\":%.1f,\"act_ms\":%.1f", t_callerReq, t_callerTh, ms, real);
-      cs->log(b);
-      if (rem) { rem->tv_sec = 0; rem->tv_nsec = 0; }
-      return 0;
-    }
+    int div = cs->spec.sleepDiv > 0 ? cs->spec.sleepDiv : 1;
+    double act = (ms >= 50.0 || div >= 1000) ? ms / div : ms;
+    uint64_t a = vf::nowNs();
+    if (act > 0.0005) vf::sleepMs(act);
+    double real = double(vf::nowNs() - a) / 1e6;
+    char b[200];
+    snprintf(b, sizeof b, "\"e\":\"c_sleep\",\"r\":%d,\"th\":%d,\"req_ms\":%.1f,\"act_ms\":%.3f", t_callerReq, t_callerTh, ms, real);
+    cs->log(b);
+    if (rem) { rem->tv_sec = 0; rem->tv_nsec = 0; }
+    return 0;
   }
   return (int)syscall(SYS_nanosleep, req, rem);
 }
@@ -923,6 +924,8 @@ static void emitCase(Case &cs, bool hang)
 
 static void runCase(const CaseSpec &spec)
 {
+  // announced first, so that the driver knows which case a process died in (sanitizer abort) and does not re-run it
+  vf::out().line("{\"t\":\"c17begin\",\"id\":" + vf::jstr(spec.id) + "}");
   Case cs(spec);
   cs.ports.assign(spec.nsrv, 0);
   std::vector<std::unique_ptr<Server>> srvs;
